@@ -92,9 +92,10 @@ BisectRight(a, x, lo, hi) == IF lo >= hi THEN lo
                                   IN IF x < a[mid + 1] THEN BisectRight(a, x, lo, mid) ELSE BisectRight(a, x, mid + 1, hi)
 \* index (1-based) of the transition pytz uses for UTC instant t
 ImplIndex(times, t) == LET b == BisectRight(times, t, 0, Len(times)) IN IF b - 1 < 0 THEN 1 ELSE b
-ImplAnswer(z, t) == LET tr == ImplTransitions(z)
-                        k == ImplIndex(ImplTimes(tr), t)
-                    IN [off |-> tr[k][3], name |-> z[tr[k][4]].name, dst |-> ImplDst(z, tr, k), std |-> IsStd(z, tr[k][4])]
+ImplAnswerIn(z, tr, times, t) ==
+    LET k == ImplIndex(times, t)
+    IN [off |-> tr[k][3], name |-> z[tr[k][4]].name, dst |-> ImplDst(z, tr, k), std |-> IsStd(z, tr[k][4])]
+ImplAnswer(z, t) == LET tr == ImplTransitions(z) IN ImplAnswerIn(z, tr, ImplTimes(tr), t)
 
 \* ------------------------------------------------------------------ C13: generated VTIMEZONE
 \* window [w0, w1) in minutes; every observance complete, every onset inside the window
